@@ -1816,8 +1816,12 @@ func buildConstructorCode(src, tgt *expr.AttributeExpr, sourceVar, targetVar str
 	for _, nat := range *tobj {
 		if _, ok := nat.Attribute.Type.(*expr.ResultTypeExpr); ok {
 			targetRTs.Set(nat.Name, nat.Attribute)
-			tobj.Delete(nat.Name)
 		}
+	}
+	for _, nat := range *targetRTs {
+		// delete once the iteration is over: deleting while ranging skips
+		// the attribute that follows each deleted one
+		tobj.Delete(nat.Name)
 	}
 	data["Source"] = sourceVar
 	data["Target"] = targetVar
